@@ -1,8 +1,11 @@
 (* C18: which project types types.ts declares, under a mapping table.
    anchors (paths below /repo/src):
      generators/mod.rs:54-96   TypeCollector::collect_used_types: the custom names of every parameter, return and
-                               channel structure (event payloads are added the same way by the event collector),
-                               then discover_nested_dependencies, then all_structs filtered by the used names
+                               channel structure, then discover_nested_dependencies, then all_structs filtered
+                               by the used names
+     generators/ts/generator.rs:157-181, generators/zod/generator.rs:285-312: for every event the custom names of the
+                               payload structure and their nested closure are added to the used structs; as a set
+                               this is the closure of the union of the roots, so an event payload is one more site
      generators/mod.rs:98-135  discover_nested_dependencies: work list through the field structures of the used
                                structs (only names that are keys of all_structs are added)
      generators/mod.rs:138-166 collect_referenced_types_from_structure: every Custom(name), at any depth;
